@@ -27,7 +27,9 @@ IVLS = [1.0, 0.05]
 
 def gen_cases(tier, seed):
     cases = []
-    for N, ivl in itertools.product(NS, IVLS):
+    ns = NS if tier == "quick" else NS + [4, 8]
+    ivls = IVLS if tier == "quick" else IVLS + [0.001, 37.5]
+    for N, ivl in itertools.product(ns, ivls):
         for size in (0, 16):
             cases.append({"t": "eof", "N": N, "ivl": ivl, "size": size, "recover": None})
             for j in range(1, N):
@@ -53,11 +55,11 @@ def gen_cases(tier, seed):
                     if N > 1 and not md_missing:
                         cases.append({"t": "nak", "N": N, "Na": 2, "ivl": ivl, "imm": imm, "md_missing": md_missing, "progress": [1, "fd"], "maxpkt": maxpkt, "gaps": gaps})
     # silence cut points of the loopback
-    for N in ([1, 2] if tier == "quick" else [1, 2, 3]):
+    for N in ([1, 2] if tier == "quick" else [1, 2, 3, 4]):
         for imm in (True, False):
-            for size in ((0, 9) if tier == "quick" else (0, 4, 9)):
+            for size, maxpkt in (((0, 64), (9, 64)) if tier == "quick" else ((0, 64), (4, 64), (9, 64), (17, 64), (17, 36), (33, 30))):
                 for closure in (False, True):
-                    cfg = {"mode": "ack", "size": size, "seg": 4, "imm_nak": imm, "closure": closure, "ack_limit": N, "nak_limit": N}
+                    cfg = {"mode": "ack", "size": size, "seg": 4, "imm_nak": imm, "closure": closure, "ack_limit": N, "nak_limit": N, "maxpkt": maxpkt}
                     with World(cfg) as w:
                         r = Runner(w)
                         w.put()
